@@ -99,7 +99,7 @@ class Engine(CoreMixin, ExprMixin, CallMixin, StmtMixin, BuiltinMixin):
         self.dict_known = {}
         self.callee_writes = {}
         self.oos_paths = []
-        self.partial_ok = bool(contract.ghost.get("partial"))
+        self.partial_ok = contract.ghost.get("partial", True)
 
     def contract_allows(self, ecls):
         for names, _ in self.contract.raises + self.contract.may_raise:
@@ -143,12 +143,18 @@ class Engine(CoreMixin, ExprMixin, CallMixin, StmtMixin, BuiltinMixin):
                 continue
             kind = contract.kinds.get(p)
             kcls = None
+            exact = False
+            if isinstance(kind, str) and kind.startswith("="):
+                kind, exact = kind[1:], True
             if isinstance(kind, str) and kind in self.spec_names:
                 kcls = self.spec_names[kind]
                 kind = "obj"
             v = Val(self.declare("in_" + p), kind=kind, cls=kcls, origin=p)
             env[p] = v
             self.input_terms[p] = v.t
+            if exact and kcls is not None:
+                self.exact_class[v.t] = kcls
+                st.assume(f"(and (k_obj {v.t}) (= (class_of (oid {v.t})) {self.ctab.cid(kcls)}))")
             if kind:
                 self.entry_kind_checks.append((p, (kind, kcls), v.t))
         if a.vararg:
@@ -167,7 +173,10 @@ class Engine(CoreMixin, ExprMixin, CallMixin, StmtMixin, BuiltinMixin):
             env[p.arg] = v
             self.input_terms[p.arg] = v.t
         if a.kwarg:
-            raise OutOfSubset("**kwargs parameter")
+            if contract.kinds.get("**" + a.kwarg.arg) == "empty":
+                env[a.kwarg.arg] = {}
+            else:
+                raise OutOfSubset("**kwargs parameter")
         # free variables of a nested function: parameters of the enclosing functions are symbolic inputs
         for outer in reversed(fi.enclosing):
             oa = outer.args
